@@ -4,7 +4,8 @@ From GoCar Require Import Bytes Varint Cid Header Frame V2Header Scan Index Stor
 From GoCarProofs Require Import BytesFacts VarintFacts CidFacts HeaderFacts ScanFacts StoreInv
   FinalStore FinalWf FinalMain DeferredFacts TraversalRoot
   ReadOnlyFacts ReadOnlyRefine ReadOnlyIndex ReadOnlyRoundTrip ReadOnlyOpen ReadOnlyMain ReadOnlyReaders
-  RoundTripBridge RoundTripWriters RoundTrip.
+  RoundTripBridge RoundTripWriters RoundTrip ReaderHistFacts.
+From GoCar Require Import ReaderHist.
 
 (* blockstore.ReadWrite, CARv2, data padding 7, index padding 3, multihash-sorted index, identity CIDs
    stored, default de-duplication; the put history is ReadOnlyMain.ex_bs in two batches (duplicate section,
@@ -104,3 +105,39 @@ Proof.
   - apply (WDeferred exd_cfg exd_ops s eq_refl E eq_refl Hfit).
   - vm_compute. reflexivity.
 Qed.
+
+(* ---- reader histories: two readers of each kind alive at once, the second archive has no blocks; Next is
+   called again after io.EOF on both; every reader answers exactly what its own archive holds ------------- *)
+Definition ex_hb2 : list block := [(ex_cid 85 x01, [x0a; x0b]); (ex_cid 85 x02, [])].
+Definition ex_f1 : bytes := payload_np (Some ex_roots) ex_hb2 0.
+Definition ex_f2 : bytes := payload_np (Some ex_roots) [] 0.
+Definition ex_sched : list (nat * rhop) :=
+  [(0, HOpen); (1, HOpen); (1, HNext); (0, HNext); (1, HNext); (0, HNext); (0, HNext); (1, HNext); (0, HNext)]%nat.
+
+Example ex_histories : forall k,
+  run_multi rhstate rhans rhop (rh_step all_hash_ok dec_header_canon k default_ropts)
+            [mkrh ex_f1 None; mkrh ex_f2 None] ex_sched
+  = [(0, HRoots ex_roots); (1, HRoots ex_roots); (1, HErr EEof); (0, HBlock (ex_cid 85 x01, [x0a; x0b]));
+     (1, HErr EEof); (0, HBlock (ex_cid 85 x02, [])); (0, HErr EEof); (1, HErr EEof); (0, HErr EEof)]%nat.
+Proof. intros []; vm_compute; reflexivity. Qed.
+
+Example ex_history_hyps : forall k,
+  Forall (block_ok_for all_hash_ok k default_ropts) ex_hb2 /\
+  proj 0 ex_sched = HOpen :: nexts (length ex_hb2 + 2).
+Proof.
+  intros k. split; [|reflexivity].
+  assert (Hb : Forall (block_ok (o_maxs default_ropts)) ex_hb2).
+  { pose proof ex_archive_ok_stored as (_ & _ & _ & H & _).
+    inversion H as [|? ? H1 H']; subst. inversion H' as [|? ? _ H'']; subst. unfold ex_hb2. constructor; [exact H1|exact H'']. }
+  assert (Hh : Forall (hash_good all_hash_ok) ex_hb2).
+  { pose proof ex_archive_ok_stored as (_ & _ & _ & _ & H). specialize (H eq_refl).
+    inversion H as [|? ? H1 H']; subst. inversion H' as [|? ? _ H'']; subst. unfold ex_hb2. constructor; [exact H1|exact H'']. }
+  pose proof ex_root_blocks_stored as Hr. fold ex_hb2 in Hr.
+  rewrite Forall_forall in *. destruct k; cbn [block_ok_for default_ropts o_maxs o_trusted]; intros b Hin; split; auto.
+Qed.
+
+(* a positioned source: three foreign bytes, then the archive *)
+Example ex_positioned :
+  br_read_all all_hash_ok dec_header_canon default_ropts (positioned ([x00; x01; x02] ++ ex_f1) 3)
+  = Ok (1, ex_roots, mkscan ex_hb2 EEof).
+Proof. vm_compute. reflexivity. Qed.
